@@ -13,10 +13,10 @@ package deb
 //@ func (d *Deb) Package(info *nfpm.Info, deb io.Writer) (err error)
 //@   requires info != nil
 //@   requires files.SpecContentsNonNil(info.Contents)
-//@   requires !flag("failed") && !flag("clockRead") && !flag("envRead")
-//@   ensures [C06] loud: implies(err == nil, !flag("failed"))
-//@   ensures [C07] no-clock: implies(!old(info.MTime.IsZero()), !flag("clockRead"))
-//@   ensures [C07] no-env: !flag("envRead")
+//@   requires !ghostFlag("failed") && !ghostFlag("clockRead") && !ghostFlag("envRead")
+//@   ensures [C06] loud: implies(err == nil, !ghostFlag("failed"))
+//@   ensures [C07] no-clock: implies(!old(info.MTime.IsZero()), !ghostFlag("clockRead"))
+//@   ensures [C07] no-env: !ghostFlag("envRead")
 //@   modifies [C11 C12] &info.Arch, &info.Contents, &info.Priority, &info.Maintainer
 //
 //@ import "archive/tar"
@@ -24,8 +24,8 @@ package deb
 //
 //@ inline func createFilesInsideDataTar(info *nfpm.Info, tw *tar.Writer) (md5buf bytes.Buffer, instSize int64, err error)
 //@   loop 0
-//@     invariant [C06] no-failure-so-far: !flag("failed")
-//@     invariant [C07] no-clock-so-far: implies(!old(info.MTime.IsZero()), !flag("clockRead"))
+//@     invariant [C06] no-failure-so-far: !ghostFlag("failed")
+//@     invariant [C07] no-clock-so-far: implies(!old(info.MTime.IsZero()), !ghostFlag("clockRead"))
 //@     invariant [C07 C11 C12] plan-still-fresh: nfpm.SpecPlanOK(info.Contents, !old(info.MTime.IsZero()))
 //
 //@ inline func conffiles(info *nfpm.Info) (result []byte)
@@ -34,7 +34,7 @@ package deb
 //
 //@ inline func createTriggers(info *nfpm.Info) (result []byte)
 //@   loop 1
-//@     invariant [C06] no-failure-so-far: !flag("failed")
+//@     invariant [C06] no-failure-so-far: !ghostFlag("failed")
 //
 //@ spec func opt(sep, s string) string {
 //@     if s == "" { return "" }
@@ -75,20 +75,20 @@ package deb
 //
 //@ func debSign(info *nfpm.Info, debianBinary, controlTarGz, dataTarball []byte) (sig []byte, sigType string, err error)
 //@   requires info != nil
-//@   requires !flag("failed")
+//@   requires !ghostFlag("failed")
 //@   ensures [C10] signs-exactly-the-three-members: implies(err == nil, globStr("signedBytes") == string(debianBinary)+string(controlTarGz)+string(dataTarball))
 //@   ensures [C10] signature-type: sigType == debSigType(old(info.Deb.Signature.Type))
 //@   ensures [C10] valid-type-on-success: implies(err == nil, validSigType(sigType))
 //@   ensures [C10] invalid-type-is-a-signing-failure: implies(!validSigType(debSigType(old(info.Deb.Signature.Type))), err != nil && errAsSigningFailure(err))
-//@   ensures [C10 C06] signer-failure-is-reported: implies(flag("failed"), err != nil)
-//@   ensures [C10] signer-failure-is-typed: implies(flag("failed"), errAsSigningFailure(err))
-//@   ensures [C10] signer-error-is-wrapped: implies(flag("failed") && !isNilFunc(old(info.Deb.Signature.SignFn)), errIs(err, globErr("signerErr")))
+//@   ensures [C10 C06] signer-failure-is-reported: implies(ghostFlag("failed"), err != nil)
+//@   ensures [C10] signer-failure-is-typed: implies(ghostFlag("failed"), errAsSigningFailure(err))
+//@   ensures [C10] signer-error-is-wrapped: implies(ghostFlag("failed") && !isNilFunc(old(info.Deb.Signature.SignFn)), errIs(err, globErr("signerErr")))
 //@   modifies [C11 C12] flag("failed"), flag("signed"), flag("signerCalled"), glob("signedBytes"), glob("signerErr")
 //
 //@ func dpkgSign(info *nfpm.Info, debianBinary, controlTarGz, dataTarball []byte) (sig []byte, sigType string, err error)
 //@   requires info != nil
-//@   requires !flag("failed")
-//@   ensures [C10 C06] signer-failure-is-reported: implies(flag("failed"), err != nil)
-//@   ensures [C10] signer-failure-is-typed: implies(flag("failed"), errAsSigningFailure(err))
-//@   ensures [C10] signer-error-is-wrapped: implies(flag("failed") && !isNilFunc(old(info.Deb.Signature.SignFn)), errIs(err, globErr("signerErr")))
+//@   requires !ghostFlag("failed")
+//@   ensures [C10 C06] signer-failure-is-reported: implies(ghostFlag("failed"), err != nil)
+//@   ensures [C10] signer-failure-is-typed: implies(ghostFlag("failed"), errAsSigningFailure(err))
+//@   ensures [C10] signer-error-is-wrapped: implies(ghostFlag("failed") && !isNilFunc(old(info.Deb.Signature.SignFn)), errIs(err, globErr("signerErr")))
 //@   modifies [C11 C12] flag("failed"), flag("signed"), flag("signerCalled"), flag("clockRead"), glob("signedBytes"), glob("signerErr")
